@@ -26,11 +26,26 @@ fn main() {
                 }
             }
         }
+        for (d, dv) in [(8usize, 1usize), (10, 2)] {
+            if doc.part == format!("net-deep:model:depth={}:dev={}", d, dv) {
+                std::process::exit(vlab::replay::replay_dfs(&doc, &move || c16::run_mode(TKind::Model, false, d, true)));
+            }
+        }
         eprintln!("unknown part {}", doc.part);
         std::process::exit(2);
     }
     let mut c = Check::new("C16", args.tier, "model_checking");
     c.rule = "DFS over every sequence (bounded depth) of sends (0,1,60,1514 bytes), receives, recycles of any held buffer, non-blocking transmit/receive begin/poll/complete, receive_wait, and device deliveries of frames (0,1,1514 bytes or the whole buffer) into any posted buffer, for the raw and the buffer-managing driver, queue size 4, with and without VERSION_1. distinct = distinct observation signatures".into();
+    {
+        // Deeper histories of the buffer-managing driver: operation types are free choices,
+        // buffer indices deviate from "oldest first" at most twice.
+        let (d, dv) = if args.tier == Tier::Quick { (8usize, 1usize) } else { (10, 2) };
+        let part = format!("net-deep:model:depth={}:dev={}", d, dv);
+        let mut cfg = DfsConfig::new(&part, dv);
+        cfg.wall_cap = Duration::from_secs(if args.tier == Tier::Quick { 30 } else { 1800 });
+        let st = dfs::explore(&cfg, &move || c16::run_mode(TKind::Model, false, d, true));
+        c.add_dfs(&part, &st);
+    }
     for (t, raw, d) in parts(args.tier) {
         let part = format!("net:{}:raw={}:depth={}", t.name(), raw as u8, d);
         let mut cfg = DfsConfig::new(&part, 0);
